@@ -24,11 +24,12 @@ import (
 // stepped in lockstep with the real Encoder and compared after every call.
 
 const (
-	c10Enum     = iota // one legal history H; every position x every fault class; Reset at later positions + legal tail
-	c10Random          // seeded history over the whole alphabet, legality not respected
-	c10Long            // long legal histories (runs of hundreds of identical drawing calls), decode oracle only
-	c10Exhaust         // every history up to a depth bound over an abstract alphabet of 16 representative calls
-	c10AdjSweep        // every adjustment value 0..255 on every call that takes one, in every protocol state
+	c10Enum      = iota // one legal history H; every position x every fault class; Reset at later positions + legal tail
+	c10Random           // seeded history over the whole alphabet, legality not respected
+	c10Long             // long legal histories (runs of hundreds of identical drawing calls), decode oracle only
+	c10Exhaust          // every history up to a depth bound over an abstract alphabet of 16 representative calls
+	c10AdjSweep         // every adjustment value 0..255 on every call that takes one, in every protocol state
+	c10MetaSweep        // every suggested-palette layout (4 formats x 1..64 explicit colours) and every combination of number forms of the viewBox bounds
 )
 
 // c10Alphabet is the abstract alphabet of the exhaustive mode: one or two
@@ -464,6 +465,52 @@ func c10Run(ctx *Ctx, t *tape.Tape) *report.Violation {
 		return v
 	}
 	switch mode {
+	case c10MetaSweep:
+		// metadata the Encoder has to lay out: chunk lengths from 3 to 258
+		// bytes, all four colour formats, every mix of 1-, 2- and 4-byte bounds
+		i := t.Intn(c10MetaSweepCases)
+		vb, pal := ivg.DefaultViewBox, ivg.DefaultPalette
+		note := ""
+		if i < 256 {
+			cls := []int{0, 2, 3, 4}[i/64]
+			n := i%64 + 1
+			force := []color.RGBA{{0x40, 0x00, 0x80, 0xff}, {0x11, 0x22, 0x00, 0xff}, {0x01, 0x02, 0x03, 0xff}, {0x01, 0x01, 0x01, 0x02}}[i/64]
+			for j := 0; j < n; j++ {
+				pal[j] = world.GenRGBAClass(t, cls)
+			}
+			pal[0] = force // rules out every shorter format
+			if pal[n-1] == ivg.DefaultPalette[n-1] {
+				pal[n-1] = force
+			}
+			note = fmt.Sprintf("metadata sweep: %d explicit palette colours of class %d", n, cls)
+		} else {
+			k := i - 256
+			val := func(form int, base float32) float32 {
+				switch form {
+				case 0:
+					return base
+				case 1:
+					return base + 1.0/64
+				}
+				return base + 0.1
+			}
+			vb = ivg.ViewBox{MinX: val(k%3, -20), MinY: val((k/3)%3, -7), MaxX: val((k/9)%3, 30), MaxY: val((k/27)%3, 41)}
+			note = fmt.Sprintf("metadata sweep: viewBox bounds in number forms %d %d %d %d (0: 1 byte, 1: 2 bytes, 2: 4 bytes)", k%3, (k/3)%3, (k/9)%3, (k/27)%3)
+		}
+		pp := pal
+		h := []world.Op{{K: world.KReset, VB: vb, Pal: &pp}, {K: world.KSetCSel, U: 1}, {K: world.KStartPath, F: [6]float32{1, 1}},
+			{K: world.KAbsLineTo, F: [6]float32{2, 3}}, {K: world.KClosePathEndPath}}
+		if v := checkHistoryQ(ctx, h, true, true); v != nil {
+			v = trace(v, h, note)
+			v.Tape, v.KeepPrefix = []uint64{c10MetaSweep, uint64(i)}, 2
+			return v
+		}
+		if st != nil {
+			st.Add("evaluations", 1)
+			st.Add("metadata_sweep_histories", 1)
+			st.Distinct(fnvAdd(uint64(i), 19))
+		}
+		return nil
 	case c10AdjSweep:
 		// the whole uint8 range of the adjustment argument, not a few
 		// representatives: on each of the three calls that take one, plain and
@@ -797,6 +844,8 @@ func genHistory(t *tape.Tape) []world.Op {
 	return h
 }
 
+const c10MetaSweepCases = 256 + 81
+
 func c10Depth(tier string) int {
 	if tier == "thorough" {
 		return 7
@@ -842,9 +891,9 @@ func init() {
 		Level: "fault_enumeration",
 		Cases: func(ctx *Ctx) int {
 			if ctx.Tier == "thorough" {
-				return 120000 + 4000000 + 400000 + c10ExhaustBlocks(ctx.Tier) + 256
+				return 120000 + 4000000 + 400000 + c10ExhaustBlocks(ctx.Tier) + 256 + c10MetaSweepCases
 			}
-			return 8000 + 300000 + 20000 + c10ExhaustBlocks(ctx.Tier) + 256
+			return 8000 + 300000 + 20000 + c10ExhaustBlocks(ctx.Tier) + 256 + c10MetaSweepCases
 		},
 		Prefix: func(ctx *Ctx, i int) []uint64 {
 			nEnum := 8000
@@ -871,12 +920,15 @@ func init() {
 			if i -= nEnum + nRandom + nLong; i < c10ExhaustBlocks(ctx.Tier) {
 				return []uint64{c10Exhaust, uint64(i), 0}
 			}
-			return []uint64{c10AdjSweep, uint64(i - c10ExhaustBlocks(ctx.Tier))}
+			if i -= c10ExhaustBlocks(ctx.Tier); i < 256 {
+				return []uint64{c10AdjSweep, uint64(i)}
+			}
+			return []uint64{c10MetaSweep, uint64(i - 256)}
 		},
 		Run: c10Run,
 		Describe: func(tier string, s *report.Stats, cases int) Evidence {
 			return Evidence{
-				Rule: "Cases are call histories on the real encode.Encoder with the 4-state reference automaton (Initial/Styling/Drawing/Error, written from the property text) stepped in lockstep and compared through a Bytes probe after every call. (a) Fault enumeration: for each sampled legal history H (lattice arguments, probes at drawn positions) one out-of-protocol call of each of 7 classes is injected at every position of H; for each such faulted history a Reset (restart) is placed at every later position (all positions when the history has <=14 calls, three drawn ones otherwise) followed by a legal tail that must decode to exactly itself. (b) Exhaustive: every history up to depth 5 (quick) / 7 (thorough) over an abstract alphabet of 16 representative calls, as the property's quantifier asks. (b') every adjustment value 0..255 on SetCReg/SetNReg (plain and incrementing) and StartPath, on the zero value, after Reset and inside an open path, each followed by a legal remainder. (c) Long legal histories with runs of 37-300 identical drawing calls (decode oracle). (d) Seeded histories over the whole alphabet (Reset, observers, resolution flag, legal and illegal calls) with no regard to legality. Every history is run three ways: probed on the zero value, unprobed (probe-free), and probed on an Encoder reset with the default metadata (zero-value). distinct_nontrivial = hash-bitmap count of distinct histories that contain at least one fault or a Reset after the first call.",
+				Rule: "Cases are call histories on the real encode.Encoder with the 4-state reference automaton (Initial/Styling/Drawing/Error, written from the property text) stepped in lockstep and compared through a Bytes probe after every call. (a) Fault enumeration: for each sampled legal history H (lattice arguments, probes at drawn positions) one out-of-protocol call of each of 7 classes is injected at every position of H; for each such faulted history a Reset (restart) is placed at every later position (all positions when the history has <=14 calls, three drawn ones otherwise) followed by a legal tail that must decode to exactly itself. (b) Exhaustive: every history up to depth 5 (quick) / 7 (thorough) over an abstract alphabet of 16 representative calls, as the property's quantifier asks. (b') every adjustment value 0..255 on SetCReg/SetNReg (plain and incrementing) and StartPath, on the zero value, after Reset and inside an open path, each followed by a legal remainder. (b'') every suggested-palette layout (4 colour formats x 1..64 explicit colours) and every combination of 1-, 2- and 4-byte number forms of the four viewBox bounds, decode oracle. (c) Long legal histories with runs of 37-300 identical drawing calls (decode oracle). (d) Seeded histories over the whole alphabet (Reset, observers, resolution flag, legal and illegal calls) with no regard to legality. Every history is run three ways: probed on the zero value, unprobed (probe-free), and probed on an Encoder reset with the default metadata (zero-value). distinct_nontrivial = hash-bitmap count of distinct histories that contain at least one fault or a Reset after the first call.",
 				Extra: map[string]interface{}{
 					"fault_kinds_fired":                    s.SortedCounters("fault_"),
 					"histories_driven_on_the_real_encoder": s.Counters["histories_driven"],
